@@ -13,22 +13,22 @@ CHECKS = {
     "C04": dict(cat="model_checking", ref="§4 C04", tech="TLA+ xor128 reference evaluated by TLC on recorded traces; complete basis of the 128-bit state",
                 text="All 128 unit-bit seeds plus structured and random seeds of XorShiftRng are stepped on the real type and every output and state image is checked by TLC against Marsaglia's xor128 written in TLA+; complete for the linear map by the basis argument.",
                 note=TB),
-    "C05": dict(cat="model_checking", ref="§4 C05", tech="TLC exhaustive model checking of ApiImpl (BlockRng/BlockRng64/via-next) with refinement to Stream (C05 as a TLA+ spec); transition cover generated from TLC's state graph replayed on all 20 generator types; trace validation against Stream with a native-call twin",
-                text="The API machine is explored exhaustively for the real buffer lengths (16, 256) and every transition is checked to refine the one-forward-stream specification; every selected edge of that graph plus seeded random interleavings is executed on the real types and each returned byte is validated by TLC against the specification instantiated with the words of an identically seeded twin.",
+    "C05": dict(cat="model_checking", ref="§4 C05", tech="TLC exhaustive model checking of ApiImpl (BlockRng/BlockRng64/via-next) with refinement to Stream (C05 as a TLA+ spec); transition cover generated from TLC's state graph replayed on all 20 generator types; trace validation against Stream with a native-call twin and against the composed model Rngs (Trace_Full)",
+                text="The API machine is explored exhaustively for the real buffer lengths (16, 256) and every transition is checked to refine the one-forward-stream specification; every selected edge of that graph, every fill_bytes length 0..89 (thorough 0..599) of the via-next types and seeded random interleavings are executed on all 20 types and each returned byte is validated by TLC twice: against Stream instantiated with the words of an identically seeded twin driven with native calls, and against the composed executable model Rngs (published algorithm + seeding + projection, no twin).",
                 note=TB + "; fill lengths for the 256-word buffers are explored in classes around 0, 1 and 2 blocks, not all lengths; seeds are a corpus"),
-    "C12": dict(cat="model_checking", ref="§4 C12", tech="TLA+ specification of the Jitterentropy collection (Jitter.tla) evaluated by TLC on recorded traces of JitterRng over scripted timers; full-state conformance through cfg(rngs_verif) accessors",
+    "C12": dict(cat="model_checking", ref="§4 C12", tech="TLA+ specification of the Jitterentropy collection (Jitter.tla) evaluated by TLC on recorded traces of JitterRng over scripted timers, incl. every short measurement-level delta sequence over an alphabet chosen for the stuck test; JitterCollect model-checked (reading counts, termination under fairness); full-state conformance through cfg(rngs_verif) accessors",
                 text="Every recorded call of a real JitterRng (next_u32/next_u64/fill_bytes/timer_stats/set_rounds/clone) carries the timer readings it consumed; TLC recomputes priming, every LFSR fold, stuck test, rotation, the stir, the memory-walk position, the pending-half flag, the returned value and the exact number of readings, and rejects the first event that differs.",
                 note=TB + "; scripted timers are a corpus (structured delta patterns + random); where the property leaves Z vs mod-2^32 differences open both are accepted"),
     "C13": dict(cat="model_checking", ref="§4 C13", tech="TLC exhaustive model checking of the code-shaped test_timer decision against the outcome relation of the property over all boundary summaries; boundary cases realised as timer scripts; trace validation of real test_timer outcomes against the relation",
                 text="The decision (thresholds, lookup table, log2 formula, set_rounds idiom, process-wide cache) is model-checked over every piece of the piecewise-constant estimate; the visited boundary cases become concrete 1601-reading scripts run through the real test_timer and each returned Ok(r)/Err(e) is checked by TLC against the relation recomputed from the readings consumed.",
                 note=TB + "; JitterRng::new() with the platform timer is modelled (cache) but only smoke-run"),
-    "C14": dict(cat="model_checking", ref="§4 C14", tech="total TLA+ specification (every action defined for every argument, one expected panic) as oracle for recorded traces of an overflow-checked build over hostile corpora",
+    "C14": dict(cat="model_checking", ref="§4 C14", tech="total TLA+ specification (every action defined for every argument, one expected panic) as oracle for recorded traces of an overflow-checked build over hostile corpora (timers incl. stalls of 13 500 readings) + native panic scan over 6000 (thorough 60 000) seeds per type, hits replayed and decided by Trace_Full",
                 text="All operations run under catch_unwind in the dev (overflow-checked) profile over hostile inputs (timer deltas around +-2^31, 2^32, 2^63, wrap-around, decreasing; extreme seeds; fill lengths 0..17, block size +-1); a recorded panic other than set_rounds(0) is a step the total specification cannot take.",
                 note=TB + "; absence of panics is established on the explored corpora, not for all inputs"),
     "C15": dict(cat="model_checking", ref="§4 C15", tech="GF(2) rank / kernel-vector certificate computed by TLC (Gf2.tla) on the pool maps extracted from the code through the cfg(rngs_verif) hook; collisions replayed on the code",
                 text="The three pool maps (LFSR fold in the pool for fixed time, in the time for fixed pool, stir) are recorded from the real code on a complete basis plus random triples; TLC checks affinity on the triples and rank 64 of each linear part, which decides bijectivity for all 2^64 values; a rank deficiency is reported only together with a collision reproduced on the real code.",
                 note=TB + "; affinity of the code's maps is sampled; a non-affine map is reported as undecided (C12 rejects it)"),
-    "C16": dict(cat="model_checking", ref="§4 C16", tech="TLC exhaustive model checking of the hand-out machine JitterApi (tokens, <=3 instances, clone of clone) with invariants AtMostOnce / PendingIsHighHalfOfOwnValue / FreshOrPendingHalf and a negative control; transition cover replayed on real JitterRng instances; Trace_Jitter executes the same plans on concrete pools",
+    "C16": dict(cat="model_checking", ref="§4 C16", tech="TLC exhaustive model checking of the hand-out machine JitterApi (tokens, <=3 instances, clone of clone, clone_from) with invariants AtMostOnce / PendingIsHighHalfOfOwnValue / FreshOrPendingHalf and a negative control; transition cover replayed on real JitterRng instances; Trace_Jitter executes the same plans on concrete pools",
                 text="All interleavings of next_u32/next_u64/fill_bytes/clone over up to three instances are explored on the abstract machine; the plans it uses are the ones the trace specification executes on concrete state, so every edge replayed on real JitterRng objects is validated for value, flag and readings consumed.",
                 note=TB + "; round counts 1,2,3 (quick) and 64,255 (thorough); fill_bytes(1..4) with a half pending is left open (C05 vs C16 wording)"),
     "C02": dict(cat="model_checking", ref="§4 C02", tech="TLA+ HC-128 in paper form (Hc128.tla) evaluated by TLC on recorded Hc128Rng traces (trace validation)",
@@ -43,7 +43,7 @@ CHECKS = {
     "C09": dict(cat="model_checking", ref="§4 C09", tech="TLC model checking of the seeding protocol with fallible sources (Seeding.tla) + trace validation of seed_from_u64 / from_rng / try_from_rng of all 19 seedable types against the documented expansions (SplitMix64, PCG32, ISAAC key layout) written in TLA+",
                 text="Error propagation, cursor advance and redraw discipline are model-checked exhaustively in a small world; on the real types every constructor's result is compared by TLC with the generator denoted by the documented expansion (state image and outputs), the source cursor and call log are checked, and fallible sources failing at calls 1..3 (partial, sticky) must yield the error and no generator.",
                 note=TB + "; u64 arguments, byte streams and failure positions on the real types are a corpus"),
-    "C10": dict(cat="model_checking", ref="§4 C10", tech="TLC model checking of CloneEq (two instances of the API machine, == as the code defines it, negative control) + observational trace monitor Trace_Pair over clone / == / lock-step schedules derived from TLC's state graph",
+    "C10": dict(cat="model_checking", ref="§4 C10", tech="TLC model checking of CloneEq (two instances of the API machine, == as the code defines it, negative control) + observational trace monitor Trace_Pair over clone / clone_from / == / lock-step schedules derived from TLC's state graph + pairwise == collision search over 60 000 (thorough 200 000) fresh seeds whose hits are driven in lock-step",
                 text="The model shows that the hand-written == (core and index, not the buffer) is a congruence on reachable pairs and fails without the index; on the real types clones are taken at buffer positions from the state graph and driven in lock-step with the original across refills and jumps, almost-equal pairs (one step / one seed bit / one perturbed serde field apart) are compared with ==, and the monitor rejects any observed divergence inside a class formed by clone or == true.",
                 note=TB + "; == is only required to be sound, not complete; seeds and histories are a corpus"),
     "C11": dict(cat="model_checking", ref="§4 C11", tech="TLC model checking of CloneEq with Ser/De (negative control: half_used not serialized) + observational trace monitor Trace_Pair over snapshot/restore schedules (bincode and JSON) derived from TLC's state graph",
@@ -52,7 +52,7 @@ CHECKS = {
     "C17": dict(cat="model_checking", ref="§4 C17", tech="trace validation against a TLA+ non-interference specification (Trace_Debug): Debug text as an uninterpreted function of history / public read position (index, half_used from the API machine ApiImpl), learned and enforced by TLC",
                 text="{:?} and {:#?} of the eight state-hiding types are recorded after every operation of walks from TLC's API state graph and random walks, each under several seeds (or timer scripts); TLC rejects two different texts for one (kind, format, history) or one (kind, format, public read position), so any seed- or state-dependent content in the text is detected without fixing the text itself.",
                 note=TB + "; leakage is detected as dependence on seed/state across the seeds of the corpus (>= 5 per history)"),
-    "C19": dict(cat="model_checking", ref="§4 C19", tech="TLC model checking of the instance machine (Instances.tla: frame property, solo-run results, process-wide JITTER_ROUNDS cache; negative controls with a global and a thread-local cache) + TLC-enumerated interleavings executed on persistent OS threads with background load, each instance validated by Trace_Stream against its solo twin; Send/Sync static assertion compiled separately",
+    "C19": dict(cat="model_checking", ref="§4 C19", tech="TLC model checking of the instance machine (Instances.tla: frame property, solo-run results, process-wide JITTER_ROUNDS cache; negative controls with a global and a thread-local cache) + TLC-enumerated interleavings executed on persistent OS threads with background load; every instance validated by Trace_Stream against a solo twin run in a process of its own; pairs built by different constructors from coinciding arguments; Send/Sync static assertion compiled separately",
                 text="All interleavings of constructors and outputs of up to three instances over two threads are explored on the model; complete interleavings printed by TLC are executed on real threads (instances moved between persistent workers, unscripted background threads constructing generators of the same kinds from zero seeds) and every instance's stream must equal its solo twin's; a new_with_timer JitterRng must be unaffected by JitterRng::new(); the Send+Sync assertions must compile.",
                 note=TB + "; the sequencer enforces the interleaving (no real data race is attempted: all generator state is owned)"),
     "C18": dict(cat="model_checking", ref="§4 C18", tech="trace validation per build configuration: the reference configuration's trace is validated by the TLA+ trace specifications, every other configuration's trace must be the same behaviour (Trace_Same, checked by TLC)",
@@ -61,7 +61,7 @@ CHECKS = {
     "C06": dict(cat="model_checking", ref="§4 C06", tech="algebraic certificate checked by TLC (ALG_Engine: Krylov rank, P(T)=0, x^(2^(n/2)) = JUMP(x), x^(2^(3n/4)) = LONG_JUMP(x) in GF(2)[x]/P) + trace validation of the real jump()/long_jump() against the reference jump loop",
                 text="For all 2^n states of each of the 5 jump-capable TLA+ engines the published jump polynomials are shown to equal x^(2^(n/2)) and x^(2^(3n/4)) modulo the characteristic polynomial, which TLC itself verifies from the engine's Krylov vectors; the 12 real types' jump functions are bound to the reference jump loop on unit-bit and random states (state image and following outputs), in several orders.",
                 note=TB + "; the characteristic polynomial comes from an untrusted helper and is re-checked in TLC; linearity of the implementation's jump is sampled"),
-    "C07": dict(cat="model_checking", ref="§4 C07", tech="algebraic certificate checked by TLC (ALG_Engine: Krylov rank n, P(T)e0=0, x^(2^n)=x, x^((2^n-1)/q)#1 for every prime q, exact re-multiplication of the factorisation) + complete transition matrices extracted from the code and validated against the specification; differing engines are decided on their own extracted matrix",
+    "C07": dict(cat="model_checking", ref="§4 C07", tech="algebraic certificate checked by TLC (ALG_Engine: Krylov rank n, P(T)e0=0, x^(2^n)=x, x^((2^n-1)/q)#1 for every prime q, exact re-multiplication of the factorisation) + transition matrices of every state-advancing path (native call, the other next_*, fill_bytes(8)) extracted from the code and validated against T resp. T^2; differing paths decided on their own matrix; non-injective steps found among recorded states with related words and replayed",
                 text="The single-cycle property is decided for all 2^n-1 non-zero states of the 7 engines by checking that x is primitive modulo the (verified) characteristic polynomial; each of the 15 linear types' transition matrices is recorded from the code on the full basis and must equal the specification's; if it does not, the certificate is run on the extracted matrix and an alarm needs a certificate (non-zero state stepping to zero replayed on the code, a Krylov space of too small dimension, or T^((2^n-1)/q) = I).",
                 note=TB + "; published factorisation of 2^n-1 (primality of the large factors is trusted); hints untrusted and re-checked; implementation linearity sampled"),
 }
